@@ -463,11 +463,33 @@ namespace c15
     // ------------------------------------------------------------------ run_terminal
     // Term: Term(cap, H, Sink*), feed(int16_t) (one newdata call), size(), cursor(), content()
     // (the `size()` characters of the edit buffer), extra_check(ref, ev, c) (target specific).
-    template <class Term> void run_terminal(Src &s, Case &c, bool enumerate, const char *name)
+    // `enumerate`: 0 random histories, 1 mixed-radix enumeration, 2 long lines (capacity 250..262: one bulk key
+    // fills the line up to around its capacity, so cursor and length pass 255, between a few short lines and
+    // a few random keys)
+    template <class Term> void run_terminal(Src &s, Case &c, int enumerate, const char *name)
     {
         unsigned cap, H;
         std::vector<Key> keys;
-        if (enumerate)
+        if (enumerate == 2)
+        {
+            cap = (unsigned)s.range(250, 262);
+            H = (unsigned)s.range(1, 3);
+            size_t pre = (size_t)s.below(3);
+            for (size_t i = 0; i < pre; i++)
+            {
+                size_t l = (size_t)s.range(1, 3);
+                for (size_t j = 0; j < l; j++)
+                    keys.push_back(text_key((uint8_t)s.pick({'a', 'b', 'c'})));
+                keys.push_back(atomic_key(8));
+            }
+            size_t n = (size_t)s.range((int64_t)cap - 8, (int64_t)cap + 1);
+            char ch = s.pick({'x', 'y', 'a'});
+            keys.push_back(Key{std::string(n, ch), fmt("%c*%zu", ch, n)});
+            size_t m = (size_t)s.range(0, 10);
+            for (size_t i = 0; i < m; i++)
+                keys.push_back(random_key(s));
+        }
+        else if (enumerate)
         {
             static const unsigned caps[4] = {2, 3, 4, 8};
             uint64_t k = s.below((uint64_t)term_enum_size(tier()));
